@@ -235,11 +235,18 @@ def r6_generator(run, F):
     MAX = F.const_value("<alpha::resolved::Expression as alpha::generator::Generatable>::generate::MAX")
     run.ob("R6-RANGES", "MIN=i64::MIN", MIN == -2 ** 63, F.where(g), "sign-extended range must start at i64::MIN (%s)" % MIN)
     run.ob("R6-RANGES", "MAX=u64::MAX", MAX == 2 ** 64 - 1, F.where(g), "zero-extended range must end at u64::MAX (%s)" % MAX)
+    top = [x for x in hirq.matches(g["hir"]) if len(x["arms"]) > 12]
+    run.require(top, "main match of Expression::generate not found")
+    sarm = hirq.arm_for(top[0], "Expression::SignedIntegerLiteral")
+    run.require(sarm, "SignedIntegerLiteral arm not found in the generator")
     mm = None
-    for m in hirq.matches(g["hir"]):
-        if hirq.local_name_of(m["scrut"]) == "value" and len(m["arms"]) == 3:
+    for m in hirq.matches(sarm[0]["body"]):
+        if hirq.local_name_of(m["scrut"]) == "value":
             mm = m
-    run.require(mm is not None, "range match on value not found in SignedIntegerLiteral arm")
+    if mm is None:
+        run.ob("R6-RANGES", "signed-literal arms", False, F.where(g, sarm[0]),
+               "the SignedIntegerLiteral arm no longer distinguishes MIN..=-1 (sign-extended), 0..=MAX (zero-extended) and the 128-bit path")
+        return
     keys = []
     for a in mm["arms"]:
         p = hirq.strip_ref(a["pat"])
